@@ -71,7 +71,7 @@ func rupCases(env *core.Env, emitted []core.Case) []core.Case {
 
 func init() {
 	register(&core.Check{
-		ID:          "C07",
+		ID: "C07",
 		Designs: []core.Design{
 			{Name: "mus", Module: "MUS", Cfg: "MUS_quick.cfg", Tier: "quick", Workers: 8, XmxMB: 6000, Timeout: 10 * time.Minute, ToCases: musCases},
 			{Name: "mus", Module: "MUS", Cfg: "MUS_thorough.cfg", Tier: "thorough", Workers: 16, XmxMB: 12000, Timeout: 30 * time.Minute, ToCases: musCases},
@@ -169,7 +169,7 @@ func init() {
 	})
 
 	register(&core.Check{
-		ID:          "C08",
+		ID: "C08",
 		Designs: []core.Design{
 			{Name: "rupcheck", Module: "RUPCheck", Cfg: "RUPCheck_quick.cfg", Tier: "quick", Workers: 8, XmxMB: 6000, Timeout: 10 * time.Minute, ToCases: rupCases},
 			{Name: "rupcheck", Module: "RUPCheck", Cfg: "RUPCheck_thorough.cfg", Tier: "thorough", Workers: 16, XmxMB: 12000, Timeout: 40 * time.Minute, ToCases: rupCases},
